@@ -69,3 +69,10 @@ Definition races (accs : list access) : list (string * string) :=
 (* the codec keeps no package state: no function assigns a package-level variable *)
 Definition codec_stateless_b (writes : list (string * string * string)) : bool :=
   match writes with [] => true | _ => false end.
+
+(* the WaitGroup protocol the interleaving model proves safe (ShutdownProofs.waitgroup_protocol) rests on WHERE Add is called:
+   by the acceptor, with the mutex held (so that it is ordered against Shutdown's signal and hence before the waiter's Wait) *)
+Definition wg_add_site_ok (a : access) : bool :=
+  if String.eqb (ac_recv a) "Server" && String.eqb (ac_field a) "wg" && String.eqb (ac_kind a) "call:Add"
+  then match class_of a with TAcceptor => ac_locked a && negb (ac_in_go a) | _ => false end
+  else true.
